@@ -167,6 +167,8 @@ def gen_plan(seed, idx):
                     a.pop("um_extra", None)
             if k == "masked":
                 a["extra"] = r.range(1, 40)
+            if k in ("masked", "strided") and r.chance(0.2):
+                a["ro"] = True      # the view is taken from a read-only array
         args.append(a)
     # a deliberately mismatched operand must not hit the unmasked length of a masked left-hand side by accident
     # (that length is legal and selects through the mask: it is the 'unmasked' kind, generated on purpose above)
@@ -345,6 +347,8 @@ class World:
                 mask = imath.IntArray(total)
                 for p in pos:
                     mask[p] = 1
+                if a.get("ro"):
+                    under.makeReadOnly()
                 ref = under[mask]
                 self.maskpos[i] = pos
                 self.tracked.append(("arg%d.underlying" % i, t, under))
@@ -370,6 +374,9 @@ class World:
                 self.args.append(arr)
             elif k == "strided":
                 parent, view = strided_view(a, t, n, cs, mode, affine)
+                if a.get("ro"):
+                    parent.makeReadOnly()
+                    view = getattr(parent, STRIDED[t][(cs >> 3) % len(STRIDED[t])][1])
                 self.tracked.append(("arg%d.parent" % i, type(parent).__name__, parent))
                 self.args.append(view)
             else:
@@ -822,6 +829,8 @@ def execute(plan, explicit=None):
         fired["probe.readonly_operand"] = 1
     if "strided" in kinds:
         fired["probe.strided_operand"] = 1
+    if any(a.get("ro") for a in plan["args"]):
+        fired["probe.view_of_readonly_array_as_operand"] = 1
     out["hash"] = h.hexdigest()
     return out
 
